@@ -60,3 +60,15 @@ Theorem C02_read_beyond_piece_is_the_only_panic : forall st p off, secs_wf st p 
   sum_slen p < off -> skip_loop p 0 off = None.
 Proof. intros st p off H Hlt. apply (read_at_beyond_crashes st p 0 off H). lia. Qed.
 Print Assumptions C02_read_beyond_piece_is_the_only_panic.
+
+(* createJobs (web-seed HTTP ranges): for every piece list produced by NewPieces (sections chaining
+   through the files) and every piece range [b, e), the jobs in order enumerate exactly the byte
+   addresses (file, padding flag, offset) of the sections of those pieces, each once and in order,
+   and no job is empty (zero-length files are not requested) *)
+From RainV Require Import JobsProofs.
+Theorem C02_jobs_cover : forall fs ps L b e, chain_ok fs 0 (flat_map psecs ps) = Some L ->
+  let secs := flat_map psecs (firstn (e - b) (skipn b ps)) in
+  flat_map job_addrs (create_jobs Nat.eqb ps b e) = flat_map sec_addrs secs /\
+  Forall (fun j => 0 < jlen j) (create_jobs Nat.eqb ps b e).
+Proof. exact jobs_cover_pieces. Qed.
+Print Assumptions C02_jobs_cover.
